@@ -536,6 +536,47 @@ def search(ctx, libdir, variant):
     ctx.obligation("searcher:C09 (%s build) ran %d evaluations" % (variant, rep["evaluations"]), rep["evaluations"] > 0, "")
 
 
+def corners(ctx, libdir):
+    """degenerate corners of the quantified space + reuse after an error path (tools/c09_search.py --corners); one child
+    process per degenerate system (N = 0: one per integrator configuration), so that a crash of the library is attributed"""
+    import c09_search as S_     # only for the lists of names (the library is not touched in this process)
+    jobs = [(sysn, None) for sysn in S_.corner_systems() if sysn != "N0"] + [("N0", i) for i in range(len(S_.CORNER_INTEGS))] + [("REUSE", None)]
+
+    def one(job):
+        sysn, idx = job
+        out = os.path.join(vlib.BUILD, "c09_corner_%d_%s_%s.json" % (os.getpid(), sysn.replace("=", "").replace(".", "_"), idx))
+        args = ["--corners", out, sysn] + ([idx] if idx is not None else [])
+        try:
+            r = vlib.run_py(libdir, os.path.join(HERE, "c09_search.py"), args, timeout=900)
+        except subprocess.TimeoutExpired:
+            return job, None, "timeout", None
+        rep = json.load(open(out)) if os.path.exists(out) else None
+        cur = json.load(open(out + ".cur")) if os.path.exists(out + ".cur") else None
+        for f in (out, out + ".cur"):
+            if os.path.exists(f): os.remove(f)
+        return job, rep, r.returncode, cur
+    with ThreadPoolExecutor(max_workers=8) as ex:
+        results = list(ex.map(one, jobs))
+    n = 0; seen = set()
+    for (sysn, idx), rep, rc, cur in results:
+        if rep is None:
+            integ = S_.CORNER_INTEGS[idx]["integ"] if idx is not None else (cur or {}).get("cfg", {}).get("integ", "?")
+            key = ("step-without-particles-crashes:%s" % integ) if sysn == "N0" else "corner-crash:%s:%s" % (sysn, integ)
+            if key not in seen:
+                seen.add(key)
+                ctx.violation(key, {"check": "corner", "system": sysn, "last_case": cur, "status": rc}, True,
+                              "the library process died (status %s) on the degenerate system %s: %s" % (rc, sysn, json.dumps(cur)[:300]))
+            ctx.case(key=("corner-crash", sysn, idx))
+            continue
+        n += rep["evaluations"]
+        for k in rep["keys"]: ctx.case(key=k)
+        for f in rep["fails"]:
+            if f["key"] in seen: continue
+            seen.add(f["key"])
+            ctx.violation(f["key"], f["replay"], True, f["why"])
+    ctx.obligation("searcher:C09 corners of the quantified space ran %d configurations" % n, n > 0, "")
+
+
 def run(ctx):
     libdir = ctx.lib()
     T = parse_tables()
@@ -546,6 +587,7 @@ def run(ctx):
     sys.path.insert(0, libdir)
     correspondence(ctx, libdir, T)
     probes(ctx, libdir)
+    corners(ctx, libdir)
     search(ctx, libdir, "default")
     have_avx = False
     try:
